@@ -17,7 +17,9 @@ From Coq Require Import NArith String List Bool Arith.
 From UPF Require Import Base.LTS.
 Import ListNotations.
 
-Inductive dgram := DRelease | DSetup | DOther.     (* DOther: any request answered in place *)
+(* DOther: any request answered in place; DDelete / DEstablish: a Session Deletion / Establishment Request for the
+   session with that (UP-chosen, fresh) SEID *)
+Inductive dgram := DRelease | DSetup | DOther | DDelete (x : N) | DEstablish (x : N).
 Inductive role := RRd | RSel | RHb | RFst | RNode | RStop | RPeers.
 Inductive fname := FReader | FSelect | FHb | FFirst | FDo | FNode | FStop | FPeers.
 Inductive chref := CShut | CTmo | CHb | CPcd | CCtx | CDone | CNpd.
@@ -43,7 +45,9 @@ Inductive instr :=
 | DpDelete (k : nat)                          (* upf.SendMsgToUPF(upfMsgTypeDel, head it) *)
 | StoreDelete (k_loop k_exit : nat)           (* RemoveSession(head it); next *)
 | CloseSock (k : nat)                         (* pConn.Close() / node.Close() *)
-| Read (k_rel k_oth k_tmo k_cls : nat)        (* pConn.Read in the reader goroutine *)
+| Read (k_msg k_tmo k_cls : nat)              (* pConn.Read in the reader goroutine *)
+| Handle (k_rel k_loop : nat)                 (* HandlePFCPMsg: handleMu { shutdown closed ? drop : handle }; Unlock *)
+| HLock (k : nat)                             (* doShutdown: pConn.handleMu.Lock(); defer Unlock *)
 | Accept (k_rel k_setup k_drop : nat)         (* node.ReadFrom + pConns.Load in handleNewPeers *)
 | MapStore (k : nat)                          (* node.pConns.Store(rAddr, p) *)
 | Go (k : nat)                                (* go p.Serve() (+ heartbeat monitor when enabled) *)
@@ -54,10 +58,11 @@ Inductive instr :=
 
 Definition code (f : fname) : list instr :=
   match f with
-  | FReader => [ Read 1 0 2 3;            (* 0  n, err := pConn.Read(buf) *)
-                 OnceDo 0;                (* 1  HandlePFCPMsg(release): defer pConn.Shutdown() *)
+  | FReader => [ Read 1 2 3;              (* 0  n, err := pConn.Read(buf) *)
+                 Handle 4 0;              (* 1  pConn.HandlePFCPMsg(buf): under handleMu, or dropped *)
                  Send CTmo 3;             (* 2  connTimeout <- struct{}{} *)
-                 Ret ]                    (* 3 *)
+                 Ret;                     (* 3 *)
+                 OnceDo 0 ]               (* 4  released: pConn.Shutdown() after the Unlock *)
   | FSelect => [ Select [(GRecv CTmo, 1); (GRecv CCtx, 1); (GRecv CShut, 2)];
                  OnceDo 2;                (* 1  pConn.Shutdown(); return *)
                  Ret ]                    (* 2 *)
@@ -75,12 +80,13 @@ Definition code (f : fname) : list instr :=
                  Ret ]                    (* 7  dropped: the address is already in pConns *)
   | FDo     => [ Close CShut 1;           (* 0 *)
                  HbCancel 2;              (* 1 *)
-                 Snapshot 3 5;            (* 2 *)
-                 DpDelete 4;              (* 3 *)
-                 StoreDelete 3 5;         (* 4 *)
-                 Send CPcd 6;             (* 5  pConn.done <- rAddr *)
-                 CloseSock 7;             (* 6 *)
-                 OnceRet ]                (* 7 *)
+                 HLock 3;                 (* 2  a message being handled finishes first *)
+                 Snapshot 4 6;            (* 3 *)
+                 DpDelete 5;              (* 4 *)
+                 StoreDelete 4 6;         (* 5 *)
+                 Send CPcd 7;             (* 6  pConn.done <- rAddr *)
+                 CloseSock 8;             (* 7 *)
+                 OnceRet ]                (* 8  deferred handleMu.Unlock(); the Once completes *)
   | FNode   => [ Select [(GRecvForget CPcd, 0); (GRecv CCtx, 1)];
                  CloseSock 2;             (* 1  node.Close() *)
                  StopWait 3 4;            (* 2  wait for the listener and for every connection *)
@@ -120,6 +126,8 @@ Record assoc := Assoc {
   a_tmo_armed : bool;      (* the peer has been silent past readTimeout *)
   a_hb_armed : bool;       (* a heartbeat request ran out of retries *)
   a_hbreg : bool;          (* hbCtxCancel != nil: the monitor has registered its cancel function *)
+  a_hmu : bool;            (* handleMu is held (by doShutdown; a handler holds it within one atomic step) *)
+  a_inst : list N;         (* ghost: every session ever installed for this association, in order *)
   a_rd : thr; a_sel : thr; a_hb : thr; a_fst : thr }.
 
 Record node := Node {
@@ -145,27 +153,29 @@ Record state := State { s_node : node; s_asc : list assoc; s_env : list env; s_p
 Inductive tid := TEnv (k : nat) | TNode (alt : nat) | TStop | TPeers | TA (i : nat) (r : role) (alt : nat).
 
 (* ------------------------------------------------------------------ field updates *)
-Definition set_store a v := let 'Assoc _ de on sh tm hb so ib ta ha hr rd se ht fs := a in Assoc v de on sh tm hb so ib ta ha hr rd se ht fs.
-Definition set_del a v := let 'Assoc st _ on sh tm hb so ib ta ha hr rd se ht fs := a in Assoc st v on sh tm hb so ib ta ha hr rd se ht fs.
-Definition set_once a v := let 'Assoc st de _ sh tm hb so ib ta ha hr rd se ht fs := a in Assoc st de v sh tm hb so ib ta ha hr rd se ht fs.
-Definition set_shut a v := let 'Assoc st de on _ tm hb so ib ta ha hr rd se ht fs := a in Assoc st de on v tm hb so ib ta ha hr rd se ht fs.
-Definition set_tmo a v := let 'Assoc st de on sh _ hb so ib ta ha hr rd se ht fs := a in Assoc st de on sh v hb so ib ta ha hr rd se ht fs.
-Definition set_hbc a v := let 'Assoc st de on sh tm _ so ib ta ha hr rd se ht fs := a in Assoc st de on sh tm v so ib ta ha hr rd se ht fs.
-Definition set_sock a v := let 'Assoc st de on sh tm hb _ ib ta ha hr rd se ht fs := a in Assoc st de on sh tm hb v ib ta ha hr rd se ht fs.
-Definition set_inbox a v := let 'Assoc st de on sh tm hb so _ ta ha hr rd se ht fs := a in Assoc st de on sh tm hb so v ta ha hr rd se ht fs.
-Definition set_tmo_armed a v := let 'Assoc st de on sh tm hb so ib _ ha hr rd se ht fs := a in Assoc st de on sh tm hb so ib v ha hr rd se ht fs.
-Definition set_hb_armed a v := let 'Assoc st de on sh tm hb so ib ta _ hr rd se ht fs := a in Assoc st de on sh tm hb so ib ta v hr rd se ht fs.
-Definition set_hbreg a v := let 'Assoc st de on sh tm hb so ib ta ha _ rd se ht fs := a in Assoc st de on sh tm hb so ib ta ha v rd se ht fs.
+Definition set_store a v := let 'Assoc _ de on sh tm hb so ib ta ha hr hm ins rd se ht fs := a in Assoc v de on sh tm hb so ib ta ha hr hm ins rd se ht fs.
+Definition set_del a v := let 'Assoc st _ on sh tm hb so ib ta ha hr hm ins rd se ht fs := a in Assoc st v on sh tm hb so ib ta ha hr hm ins rd se ht fs.
+Definition set_once a v := let 'Assoc st de _ sh tm hb so ib ta ha hr hm ins rd se ht fs := a in Assoc st de v sh tm hb so ib ta ha hr hm ins rd se ht fs.
+Definition set_shut a v := let 'Assoc st de on _ tm hb so ib ta ha hr hm ins rd se ht fs := a in Assoc st de on v tm hb so ib ta ha hr hm ins rd se ht fs.
+Definition set_tmo a v := let 'Assoc st de on sh _ hb so ib ta ha hr hm ins rd se ht fs := a in Assoc st de on sh v hb so ib ta ha hr hm ins rd se ht fs.
+Definition set_hbc a v := let 'Assoc st de on sh tm _ so ib ta ha hr hm ins rd se ht fs := a in Assoc st de on sh tm v so ib ta ha hr hm ins rd se ht fs.
+Definition set_sock a v := let 'Assoc st de on sh tm hb _ ib ta ha hr hm ins rd se ht fs := a in Assoc st de on sh tm hb v ib ta ha hr hm ins rd se ht fs.
+Definition set_inbox a v := let 'Assoc st de on sh tm hb so _ ta ha hr hm ins rd se ht fs := a in Assoc st de on sh tm hb so v ta ha hr hm ins rd se ht fs.
+Definition set_tmo_armed a v := let 'Assoc st de on sh tm hb so ib _ ha hr hm ins rd se ht fs := a in Assoc st de on sh tm hb so ib v ha hr hm ins rd se ht fs.
+Definition set_hb_armed a v := let 'Assoc st de on sh tm hb so ib ta _ hr hm ins rd se ht fs := a in Assoc st de on sh tm hb so ib ta v hr hm ins rd se ht fs.
+Definition set_hbreg a v := let 'Assoc st de on sh tm hb so ib ta ha _ hm ins rd se ht fs := a in Assoc st de on sh tm hb so ib ta ha v hm ins rd se ht fs.
+Definition set_hmu a v := let 'Assoc st de on sh tm hb so ib ta ha hr _ ins rd se ht fs := a in Assoc st de on sh tm hb so ib ta ha hr v ins rd se ht fs.
+Definition set_inst a v := let 'Assoc st de on sh tm hb so ib ta ha hr hm _ rd se ht fs := a in Assoc st de on sh tm hb so ib ta ha hr hm v rd se ht fs.
 
 Definition get_thr (a : assoc) (r : role) : thr :=
   match r with RRd => a_rd a | RSel => a_sel a | RHb => a_hb a | _ => a_fst a end.
 Definition set_thr (a : assoc) (r : role) (t : thr) : assoc :=
-  let 'Assoc st de on sh tm hb so ib ta ha hr rd se ht fs := a in
+  let 'Assoc st de on sh tm hb so ib ta ha hr hm ins rd se ht fs := a in
   match r with
-  | RRd => Assoc st de on sh tm hb so ib ta ha hr t se ht fs
-  | RSel => Assoc st de on sh tm hb so ib ta ha hr rd t ht fs
-  | RHb => Assoc st de on sh tm hb so ib ta ha hr rd se t fs
-  | _ => Assoc st de on sh tm hb so ib ta ha hr rd se ht t
+  | RRd => Assoc st de on sh tm hb so ib ta ha hr hm ins t se ht fs
+  | RSel => Assoc st de on sh tm hb so ib ta ha hr hm ins rd t ht fs
+  | RHb => Assoc st de on sh tm hb so ib ta ha hr hm ins rd se t fs
+  | _ => Assoc st de on sh tm hb so ib ta ha hr hm ins rd se ht t
   end.
 
 Definition nset_ctx n v := let 'Node _ pc dn ls mp ex bu mn np nn cr en th sp pe := n in Node v pc dn ls mp ex bu mn np nn cr en th sp pe.
@@ -276,7 +286,8 @@ Definition exec (me : N) (r : role) (alt : nat) (nd : node) (a : assoc) (t : thr
     | ORun _ => Blocked
     | ODone => Ok (nd, a, goto t k)
     end
-  | OnceRet => Ok (nd, set_once a ODone, Thr (t_st t) (home r) (t_ret t) 0 [])
+  | OnceRet => Ok (nd, set_hmu (set_once a ODone) false, Thr (t_st t) (home r) (t_ret t) 0 [])
+  | HLock k => if a_hmu a then Blocked else Ok (nd, set_hmu a true, goto t k)
   | Snapshot k_loop k_exit =>
     Ok (nd, a, goto (set_it t (a_store a)) (if is_nil (a_store a) then k_exit else k_loop))
   | DpDelete k =>
@@ -295,12 +306,30 @@ Definition exec (me : N) (r : role) (alt : nat) (nd : node) (a : assoc) (t : thr
     | RNode => Ok (nset_lsock nd true, a, goto t k)
     | _ => Ok (nd, set_sock a true, goto t k)
     end
-  | Read k_rel k_oth k_tmo k_cls =>
+  | Read k_msg k_tmo k_cls =>
     if a_sock a then Ok (nd, a, goto t k_cls)
     else match a_inbox a with
-         | DRelease :: ib => Ok (nd, set_inbox a ib, goto t k_rel)
-         | _ :: ib => Ok (nd, set_inbox a ib, goto t k_oth)
+         | _ :: _ => Ok (nd, a, goto t k_msg)
          | [] => if a_tmo_armed a then Ok (nd, set_tmo_armed a false, goto t k_tmo) else Blocked
+         end
+  | Handle k_rel k_loop =>
+    if a_hmu a then Blocked
+    else match a_inbox a with
+         | [] => Blocked
+         | d :: ib =>
+           let a1 := set_inbox a ib in
+           if cclosed (a_shut a) then Ok (nd, a1, goto t k_loop)       (* the connection is shutting down: dropped *)
+           else match d with
+                | DRelease => Ok (nd, a1, goto t k_rel)
+                | DDelete x =>
+                  if memN x (a_store a)
+                  then Ok (nd, set_store (set_del a1 (a_del a ++ [x])) (remove_first x (a_store a)), goto t k_loop)
+                  else Ok (nd, a1, goto t k_loop)
+                | DEstablish x =>
+                  if memN x (a_inst a) then Ok (nd, a1, goto t k_loop)
+                  else Ok (nd, set_inst (set_store a1 (a_store a ++ [x])) (a_inst a ++ [x]), goto t k_loop)
+                | _ => Ok (nd, a1, goto t k_loop)
+                end
          end
   | Accept k_rel k_setup k_drop =>
     if n_lsock nd || n_busy nd then Blocked
@@ -337,7 +366,7 @@ Definition thread_step (me : N) (r : role) (alt : nat) (nd : node) (a : assoc) (
 (* ------------------------------------------------------------------ the system *)
 Definition thr0 (st : tstat) (f : fname) : thr := Thr st f 0 0 [].
 Definition assoc0 : assoc :=
-  Assoc [] [] ONew (mkchan 0) (mkchan 1) (mkchan 0) false [] false false false
+  Assoc [] [] ONew (mkchan 0) (mkchan 1) (mkchan 0) false [] false false false false []
         (thr0 TAbsent FReader) (thr0 TAbsent FSelect) (thr0 TAbsent FHb) (thr0 TAbsent FFirst).
 
 Fixpoint upd {A} (l : list A) (i : nat) (x : A) : list A :=
@@ -442,6 +471,7 @@ Definition init_assoc (c : acfg) : assoc :=
   Assoc (c_sess c) [] ONew (mkchan 0) (mkchan tmo_cap) (mkchan 0) false
         (match c_first c with Some d => [d] | None => [] end) false false
         (live && c_hb c)                       (* an established association's monitor has registered *)
+        false (c_sess c)
         (thr0 st FReader) (thr0 st FSelect)
         (if c_hb c then (if live then Thr TRunning FHb 1 0 [] else thr0 TNotStarted FHb) else thr0 TAbsent FHb)
         (if live then Thr TFinished FFirst 6 0 [] else thr0 TRunning FFirst).
@@ -586,7 +616,11 @@ Fixpoint list_eqb {A} (f : A -> A -> bool) (x y : list A) : bool :=
   | _, _ => false
   end.
 Definition dgram_eqb (a b : dgram) : bool :=
-  match a, b with DRelease, DRelease | DSetup, DSetup | DOther, DOther => true | _, _ => false end.
+  match a, b with
+  | DRelease, DRelease | DSetup, DSetup | DOther, DOther => true
+  | DDelete x, DDelete y | DEstablish x, DEstablish y => N.eqb x y
+  | _, _ => false
+  end.
 Definition role_eqb (a b : role) : bool :=
   match a, b with
   | RRd, RRd | RSel, RSel | RHb, RHb | RFst, RFst | RNode, RNode | RStop, RStop | RPeers, RPeers => true
@@ -621,7 +655,7 @@ Definition assoc_eqb (a b : assoc) : bool :=
   &&& chan_eqb (a_shut a) (a_shut b) &&& chan_eqb (a_tmo a) (a_tmo b) &&& chan_eqb (a_hbc a) (a_hbc b)
   &&& Bool.eqb (a_sock a) (a_sock b) &&& list_eqb dgram_eqb (a_inbox a) (a_inbox b)
   &&& Bool.eqb (a_tmo_armed a) (a_tmo_armed b) &&& Bool.eqb (a_hb_armed a) (a_hb_armed b)
-  &&& Bool.eqb (a_hbreg a) (a_hbreg b).
+  &&& Bool.eqb (a_hbreg a) (a_hbreg b) &&& Bool.eqb (a_hmu a) (a_hmu b) &&& list_eqb N.eqb (a_inst a) (a_inst b).
 Definition node_eqb (a b : node) : bool :=
   thr_eqb (n_thr a) (n_thr b) &&& thr_eqb (n_stop a) (n_stop b)
   &&& chan_eqb (n_ctx a) (n_ctx b) &&& chan_eqb (n_pcd a) (n_pcd b) &&& chan_eqb (n_done a) (n_done b)
@@ -659,7 +693,7 @@ Definition assoc_key (a : assoc) : N :=
   ((((thr_key (a_rd a) * 131 + thr_key (a_sel a)) * 131 + thr_key (a_hb a)) * 131 + thr_key (a_fst a)) * 3
    + once_code (a_once a)) * 16
   + N.of_nat (List.length (a_inbox a)) * 8 + b2n (a_sock a) * 4 + b2n (a_tmo_armed a) * 2 + b2n (a_hb_armed a)
-  + 1024 * N.of_nat (List.length (cbuf (a_tmo a))).
+  + 1024 * N.of_nat (List.length (cbuf (a_tmo a))) + 4096 * N.of_nat (List.length (a_store a)).
 Definition state_key (s : state) : positive :=
   let nd := s_node s in
   N.succ_pos
@@ -681,7 +715,7 @@ Open Scope string_scope.
 Definition conn_shutdown_skel :=
   "once(shutdownOnce,doShutdown)".
 Definition conn_doShutdown_skel :=
-  "close(shutdown);call(hbMu.Lock);if(hbCtxCancel){call(hbCtxCancel)};call(hbMu.Unlock);range(store.GetAllSessions){call(SendMsgToUPF:upfMsgTypeDel);call(RemoveSession)};send(done);call(Close);if{return}".
+  "close(shutdown);call(hbMu.Lock);if(hbCtxCancel){call(hbCtxCancel)};call(hbMu.Unlock);call(handleMu.Lock);defer(handleMu.Unlock);range(store.GetAllSessions){call(SendMsgToUPF:upfMsgTypeDel);call(RemoveSession)};send(done);call(Close);if{return}".
 Definition conn_serve_skel :=
   "make(connTimeout,1);go{loop{call(SetReadDeadline);call(Read);if{if{send(connTimeout);return};if{return};continue};call(HandlePFCPMsg)}};loop{select{recv(connTimeout):{call(Shutdown);return};recv(ctx.Done):{call(Shutdown);return};recv(shutdown):{return}}}".
 Definition conn_hb_monitor_skel :=
@@ -699,7 +733,9 @@ Definition node_stop_skel :=
 Definition node_done_skel :=
   "recv(done)".
 Definition handle_msg_skel :=
-  "if{return};switch{case(message.MsgTypeAssociationSetupRequest){if{go(startHeartBeatMonitor)}};case(message.MsgTypeAssociationReleaseRequest){call(handleAssociationReleaseRequest);defer(Shutdown)}}".
+  "call(handleMu.Lock);call(handlePFCPMsg);call(handleMu.Unlock);if(released){call(Shutdown)}".
+Definition handle_msg_locked_skel :=
+  "select{recv(shutdown):{return};default:{}};if{return};switch{case(message.MsgTypeAssociationSetupRequest){if{go(startHeartBeatMonitor)}};case(message.MsgTypeAssociationReleaseRequest){call(handleAssociationReleaseRequest);set(released,true)}};return".
 Definition iface_stop_skel :=
   "defer(Unlock);defer{call(cancel)};call(node.Stop);call(node.Done)".
 Definition remove_session_skel :=
